@@ -36,7 +36,8 @@ def strategy(tier):
         route = draw(st.sampled_from(["lib", "lib", "cli"]))
         t = draw(trees.tree(P, max_files=8 if tier == "quick" else 20, cli_safe=(route == "cli")))
         return {"tree": t, "P": None if draw(st.sampled_from([True] + [False] * 9)) else P, "route": route,
-                "again": draw(common.second_act())}
+                # progress mode is a legitimate create parameter (round 8: a shared option helper lost `align` in mode 2)
+                "progress": draw(st.sampled_from([0, 0, 1, 2])), "again": draw(common.second_act())}
     return case()
 
 
@@ -73,7 +74,8 @@ def run_case(case):
         root = common.make(scr, tree)
         out = os.path.join(scr, "out", "o.torrent")
         try:
-            m = common.create("TorrentFile", case["route"], root, out, P, extra_kw={"align": True}, extra_cli=["--align"])
+            m = common.create("TorrentFile", case["route"], root, out, P, case.get("progress", 0), extra_kw={"align": True},
+                              extra_cli=["--align"])
         except Exception as e:
             return Outcome(Violation("C15:exception:%s" % type(e).__name__, "create raised %r" % (e,)), True, ["exception"])
         first = judge(m, tree, P)
@@ -84,7 +86,7 @@ def run_case(case):
             return first
         try:
             m2 = common.create("TorrentFile", case["route"], root, os.path.join(scr, "out", "again.torrent"), P,
-                               extra_kw={"align": True}, extra_cli=["--align"])
+                               case.get("progress", 0), extra_kw={"align": True}, extra_cli=["--align"])
         except Exception as e:
             return Outcome(Violation("C15:again:exception:%s" % type(e).__name__, "second create raised %r" % (e,)), True)
         second = judge(m2, tree2, P)
